@@ -72,7 +72,7 @@ Theorem c18_exact_names_only : forall c, In c all_contexts -> forall n, ~ In n (
 Proof.
   intros c Hc n Hn. pose proof (all_facts c Hc) as F. pose proof (not_accepted_unknown c F n Hn) as M.
   destruct (unknown_absent c F n M) as [A [B _]].
-  split; [exact M|]. split; [cbn [is_valid]; rewrite M; reflexivity|]. split; assumption.
+  split; [exact M|]. split; [rewrite (is_valid_all c F), M; reflexivity|]. split; assumption.
 Qed.
 Print Assumptions c18_exact_names_only.
 
@@ -101,6 +101,7 @@ Definition x86_masked_get : ctx_table :=
      ct_get := ([n_esp], AAnd (ALoc l_x86_esp) (ANot (ALit 3) 32)) :: ct_get ctx_x86;
      ct_set := ct_set ctx_x86; ct_set_val := ct_set_val ctx_x86;
      ct_memo := ct_memo ctx_x86; ct_memo_cmp := ct_memo_cmp ctx_x86; ct_groups := ct_groups ctx_x86;
+     ct_valid_all := ct_valid_all ctx_x86; ct_valid_default := ct_valid_default ctx_x86; ct_get_cond := ct_get_cond ctx_x86;
      ct_sp_name := ct_sp_name ctx_x86; ct_ip_name := ct_ip_name ctx_x86;
      ct_sp_acc := ct_sp_acc ctx_x86; ct_ip_acc := ct_ip_acc ctx_x86;
      ct_md_get := ct_md_get ctx_x86; ct_md_valid := ct_md_valid ctx_x86; ct_md_filter := ct_md_filter ctx_x86;
@@ -114,6 +115,28 @@ Theorem c18_masked_read_rejected :
 Proof. cbv zeta. repeat split; try (vm_compute; reflexivity). vm_compute. discriminate. Qed.
 Print Assumptions c18_masked_read_rejected.
 
+(* what the checker does with a looser validity test: the trait default of register_is_valid reading
+   `which.contains(reg) || true`.  The empty validity set then makes every register of X86 valid;
+   [diagnose] reports the table. *)
+Definition x86_loose_validity : ctx_table :=
+  {| ct_name := ct_name ctx_x86; ct_variant := ct_variant ctx_x86; ct_width := ct_width ctx_x86;
+     ct_registers := ct_registers ctx_x86; ct_get := ct_get ctx_x86;
+     ct_set := ct_set ctx_x86; ct_set_val := ct_set_val ctx_x86;
+     ct_memo := ct_memo ctx_x86; ct_memo_cmp := ct_memo_cmp ctx_x86; ct_groups := ct_groups ctx_x86;
+     ct_valid_all := ct_valid_all ctx_x86; ct_valid_default := BOr (BVar v_contains) (BLit true);
+     ct_get_cond := ct_get_cond ctx_x86;
+     ct_sp_name := ct_sp_name ctx_x86; ct_ip_name := ct_ip_name ctx_x86;
+     ct_sp_acc := ct_sp_acc ctx_x86; ct_ip_acc := ct_ip_acc ctx_x86;
+     ct_md_get := ct_md_get ctx_x86; ct_md_valid := ct_md_valid ctx_x86; ct_md_filter := ct_md_filter ctx_x86;
+     ct_fields := ct_fields ctx_x86; ct_gpr := ct_gpr ctx_x86 |}.
+Theorem c18_loose_validity_rejected :
+  is_valid x86_loose_validity n_esp (VSome []) = true /\ is_valid ctx_x86 n_esp (VSome []) = false /\
+  get_register x86_loose_validity (fun _ _ => 9) n_esp (VSome []) = Ret (Some 9) /\
+  get_register ctx_x86 (fun _ _ => 9) n_esp (VSome []) = Ret None /\
+  diagnose x86_loose_validity <> [].
+Proof. repeat split; try (vm_compute; reflexivity). vm_compute. discriminate. Qed.
+Print Assumptions c18_loose_validity_rejected.
+
 (* what the checker does with a case-insensitive default_memoize_register: "RIP" becomes known to
    memoize_register (as rip) while get_register_always does not know it, so the checked read
    reaches unreachable!(); [diagnose] reports the table *)
@@ -123,6 +146,7 @@ Definition amd64_nocase : ctx_table :=
   {| ct_name := ct_name ctx_amd64; ct_variant := ct_variant ctx_amd64; ct_width := ct_width ctx_amd64;
      ct_registers := ct_registers ctx_amd64; ct_get := ct_get ctx_amd64; ct_set := ct_set ctx_amd64; ct_set_val := ct_set_val ctx_amd64;
      ct_memo := ct_memo ctx_amd64; ct_memo_cmp := 1; ct_groups := ct_groups ctx_amd64;
+     ct_valid_all := ct_valid_all ctx_amd64; ct_valid_default := ct_valid_default ctx_amd64; ct_get_cond := ct_get_cond ctx_amd64;
      ct_sp_name := ct_sp_name ctx_amd64; ct_ip_name := ct_ip_name ctx_amd64;
      ct_sp_acc := ct_sp_acc ctx_amd64; ct_ip_acc := ct_ip_acc ctx_amd64;
      ct_md_get := ct_md_get ctx_amd64; ct_md_valid := ct_md_valid ctx_amd64; ct_md_filter := ct_md_filter ctx_amd64;
@@ -190,6 +214,7 @@ Definition arm_thumb_masked : ctx_table :=
   {| ct_name := ct_name ctx_arm; ct_variant := ct_variant ctx_arm; ct_width := ct_width ctx_arm;
      ct_registers := ct_registers ctx_arm; ct_get := ct_get ctx_arm; ct_set := ct_set ctx_arm; ct_set_val := ct_set_val ctx_arm;
      ct_memo := ct_memo ctx_arm; ct_memo_cmp := ct_memo_cmp ctx_arm; ct_groups := ct_groups ctx_arm;
+     ct_valid_all := ct_valid_all ctx_arm; ct_valid_default := ct_valid_default ctx_arm; ct_get_cond := ct_get_cond ctx_arm;
      ct_sp_name := ct_sp_name ctx_arm; ct_ip_name := ct_ip_name ctx_arm;
      ct_sp_acc := ct_sp_acc ctx_arm;
      ct_ip_acc := ALet n_pc (ACast (ALoc l_arm_pc) 32 64)
@@ -317,6 +342,7 @@ Definition sparc_before_fix : ctx_table :=
   {| ct_name := ct_name ctx_sparc; ct_variant := ct_variant ctx_sparc; ct_width := ct_width ctx_sparc;
      ct_registers := ct_registers ctx_sparc; ct_get := ct_get ctx_sparc; ct_set := ct_set ctx_sparc; ct_set_val := ct_set_val ctx_sparc;
      ct_memo := []; ct_memo_cmp := 0; ct_groups := [];
+     ct_valid_all := ct_valid_all ctx_sparc; ct_valid_default := ct_valid_default ctx_sparc; ct_get_cond := ct_get_cond ctx_sparc;
      ct_sp_name := ct_sp_name ctx_sparc; ct_ip_name := ct_ip_name ctx_sparc;
      ct_sp_acc := ct_sp_acc ctx_sparc; ct_ip_acc := ct_ip_acc ctx_sparc; ct_fields := ct_fields ctx_sparc;
      ct_md_get := ct_md_get ctx_sparc; ct_md_valid := ct_md_valid ctx_sparc; ct_md_filter := ct_md_filter ctx_sparc;
@@ -358,6 +384,30 @@ Proof.
   cbv zeta. split; [vm_compute; tauto|]. split; [vm_compute; tauto|]. split; [vm_compute; reflexivity|].
   eexists. split; [vm_compute; reflexivity|]. repeat split; vm_compute; reflexivity.
 Qed.
+(* c18_exact_names_only / c18_case_sensitive: "RIP" vs "rip" on AMD64 *)
+Example c18_nonvacuous_case :
+  In ctx_amd64 all_contexts /\ In n_rip (accepted ctx_amd64) /\ n_RIP <> n_rip /\
+  map lower n_RIP = map lower n_rip /\ ~ In n_RIP (accepted ctx_amd64) /\
+  memoize ctx_amd64 n_RIP = None /\ get_register ctx_amd64 (fun _ _ => 7) n_RIP VAll = Ret None /\
+  get_register ctx_amd64 (fun _ _ => 7) n_rip VAll = Ret (Some 7).
+Proof.
+  split; [vm_compute; tauto|]. split; [vm_compute; tauto|]. split; [discriminate|].
+  split; [reflexivity|]. split; [vm_compute; intuition discriminate|].
+  repeat split; vm_compute; reflexivity.
+Qed.
+(* c18_accessors_follow_names / c18_md_roundtrip: ARM, a write through the alias r15 reaches
+   get_instruction_pointer, the type-erased reads and format_register; a write through r12 does not *)
+Definition n_r15 : name := [114; 49; 53].
+Example c18_nonvacuous_accessors :
+  let rf0 : regfile := fun _ _ => 5 in let rf1 := upd rf0 l_arm_pc 32769 in
+  In n_r15 (accepted ctx_arm) /\ find_arm n_r15 (ct_set ctx_arm) = Some l_arm_pc /\
+  memoize ctx_arm n_r15 = memoize ctx_arm (ct_ip_name ctx_arm) /\
+  md_instruction_pointer ctx_arm rf1 = Ret 32769 /\ md_stack_pointer ctx_arm rf1 = Ret 5 /\
+  md_get_always ctx_arm rf1 n_pc = Ret 32769 /\ md_get_register ctx_arm rf1 n_pc (VSome [n_r15]) = Ret (Some 32769) /\
+  md_get_register ctx_arm rf1 n_pc (VSome [n_sp]) = Ret None /\
+  format_register ctx_arm rf1 n_r15 = Ret [48; 120; 48; 48; 48; 48; 56; 48; 48; 49] /\
+  cpu_iter_next ctx_arm rf1 [n_pc; n_sp] = Ret (Some (n_pc, 32769), [n_sp]).
+Proof. cbv zeta. split; [vm_compute; tauto|]. repeat split; vm_compute; reflexivity. Qed.
 (* an unknown name: absent, refused, and get_register_always would panic *)
 Example c18_nonvacuous_unknown :
   memoize ctx_amd64 [102; 111; 111] = None /\ get_always ctx_amd64 (fun _ _ => 0) [102; 111; 111] = Panic 1 /\
